@@ -17,7 +17,7 @@ from vplib.simlib import SimRunner, Summary, case_line, basic_problems
 
 MANIFEST = dict(
     category="proof",
-    text="PARTIAL. Coq theorems on the protocol model M-Sys (coq/theories/sys/Proto.v), for every oracle: worker_steps_commute (steps of different workers commute), placement_irrelevant_local (a time slice depends on its worker only through the ghost stamp of a sent message), single_sender_mailbox_order (with one sender per mailbox the arrival sequence is a prefix of the sender's send sequence under every schedule), message conservation, and the kernel-computed witness of the known finding F72 (the answer to a multi-target await is overtaken by a same-worker completion). NOT proved: the global statement schedule_independence (every confluent program yields the same per-process results under every schedule, worker count and quantum) — its ingredients are proved (`schedule_independence_partial`), the global statement is tested on the real code: generated confluent programs under seeded adversarial schedules x worker counts {1,2,3,5} x quanta {1,2,3,7,1000} and exhaustive short schedule prefixes must reproduce the results of the 1-worker/quantum-1000/fair run. The quantum is not a parameter of the model (a time slice is an input), so quantum independence is covered by the exploration only. The model is tied to the code by replaying qv_sim traces through the extracted model with the state compared after every scheduler action.",
+    text="PARTIAL. Coq theorems on the protocol model M-Sys (coq/theories/sys/Proto.v), for every oracle: worker_steps_commute (steps of different workers commute), worker_env_diamond (phase 3: a Worker::step that handles only already-queued commands and an Environment::step that collects from that worker only already-queued events commute, so every pair of independent scheduler actions commutes), placement_irrelevant_local (a time slice depends on its worker only through the ghost stamp of a sent message), single_sender_mailbox_order (with one sender per mailbox the arrival sequence is a prefix of the sender's send sequence under every schedule), message conservation, and the kernel-computed witness of the known finding F72 (the answer to a multi-target await is overtaken by a same-worker completion). NOT proved: the global statement schedule_independence (every confluent program yields the same per-process results under every schedule, worker count and quantum) — its ingredients are proved (`schedule_independence_partial`), the global statement is tested on the real code: generated confluent programs under seeded adversarial schedules x worker counts {1,2,3,5} x quanta {1,2,3,7,1000} and exhaustive short schedule prefixes must reproduce the results of the 1-worker/quantum-1000/fair run. The quantum is not a parameter of the model (a time slice is an input), so quantum independence is covered by the exploration only. The model is tied to the code by replaying qv_sim traces through the extracted model with the state compared after every scheduler action.",
     design_ref="§4, §5 C03",
     note="Trusted: Coq kernel, extraction (ExtrOcamlBasic), OCaml driver, the simulator (harness/src/bin/qv_sim), the trace-to-oracle conversion (vplib/simlib.py), the schedule abstraction of DESIGN §4, generators emit only programs that are confluent by specification. Known finding F72.",
     technique="Coq proof (commutation / placement lemmas on a protocol model) + model/code correspondence by trace replay + bounded schedule exploration of the real runtime, differential against the fair single-worker run",
